@@ -18,7 +18,7 @@ BUDGET = {"quick": 8000, "thorough": 500000}
 RULE = (
     "case = (trie built from 1-10 items with mostly >=32-byte values so nodes are hashed, "
     "a hidden subset of its hashed nodes (index list / all / all-but-root / only root), "
-    "one to three consecutive operations in {get, exists, set, delete, set-empty, traverse(path), "
+    "one to four consecutive operations (a failed one may be abandoned after its node was supplied; set/delete also through a fresh squash_changes block) in {get, exists, set, delete, set-empty, traverse(path), "
     "traverse_from(node@prefix, segment), root_node} with index-based keys and paths, "
     "inside or outside squash_changes, prune on/off). Oracle: loop 'call; on "
     "MissingTrieNode/MissingTraversalNode check the report, reveal exactly that node, "
@@ -60,7 +60,8 @@ def strategy(tier):
     )
     op = st.fixed_dictionaries(
         {
-            "kind": st.sampled_from(OPS),
+            "kind": st.sampled_from(OPS + ["bset", "bdelete"]),
+            "abandon": st.sampled_from([False, False, True]),
             "key": keyspecs(tier, near_weight=9),
             "val": valspecs(tier),
             "cut": st.one_of(st.none(), st.integers(0, 80)),
@@ -68,15 +69,32 @@ def strategy(tier):
             "split": st.integers(0, 20),
         }
     )
-    return st.fixed_dictionaries(
-        {
-            "prune": st.booleans(),
-            "in_batch": st.booleans(),
-            "items": st.lists(item, min_size=1, max_size=n_items),
-            "hidden": hidden,
-            "op": op,
-            "more": st.lists(op, max_size=2),
-        }
+    def scenario(base, first, change, last, abandon, val):
+        """read k (maybe giving up after the node was supplied) - change k - read k again"""
+        a = dict(base, kind=first, abandon=abandon)
+        b = dict(base, kind=change, abandon=False, val=val)
+        c = dict(base, kind=last, abandon=False)
+        return [a, b, c]
+
+    scen = st.builds(scenario, op, st.sampled_from(["get", "exists", "traverse", "delete", "set"]),
+                     st.sampled_from(["bset", "bdelete", "set", "delete", "sete"]),
+                     st.sampled_from(["get", "exists", "traverse"]), st.booleans(), valspecs(tier))
+    ops = st.one_of(
+        st.builds(lambda a, m: [a] + m, op, st.lists(op, max_size=3)),
+        st.builds(lambda a, m: [a] + m, op, st.lists(op, max_size=3)),
+        scen,
+    )
+    return st.builds(
+        lambda d, o: dict(d, op=o[0], more=o[1:]),
+        st.fixed_dictionaries(
+            {
+                "prune": st.booleans(),
+                "in_batch": st.booleans(),
+                "items": st.lists(item, min_size=1, max_size=n_items),
+                "hidden": hidden,
+            }
+        ),
+        ops,
     )
 
 
@@ -202,9 +220,13 @@ def run_case(case):
         model, ref, where, children_of = state["model"], state["ref"], state["where"], state["children_of"]
         complete, full = state["complete"], state["full"]
         n_hidden = len(lossy.hidden)
-        op = case["op"]
         kind = op["kind"]
         info.label("op:" + kind)
+        via_batch = False
+        if kind in ("bset", "bdelete"):
+            # the same mutation through a fresh squash_changes block (nesting is out of scope)
+            via_batch = cm is None
+            kind = "set" if kind == "bset" else "delete"
         key = resolve_key(op["key"], sorted(model))
         kn = nibbles_of(key)
         path = kn
@@ -228,6 +250,17 @@ def run_case(case):
             elif kind == "delete":
                 new_model.pop(key, None)
                 fn = lambda: t.delete(key)  # noqa: E731
+            if via_batch:
+                info.label("mutation-through-fresh-batch")
+
+                def fn():  # noqa: F811
+                    with t.squash_changes() as b:
+                        if kind == "set":
+                            b.set(key, val)
+                        else:
+                            b.delete(key)
+            elif kind in ("set", "delete"):
+                pass
             else:
                 new_model.pop(key, None)
                 fn = lambda: t.set(key, b"")  # noqa: E731
@@ -321,6 +354,10 @@ def run_case(case):
             reported.append(h)
             lossy.reveal(h)
             info.count("reports")
+            if op.get("abandon"):
+                # the caller gives up on this call (the node stays supplied) and moves on
+                info.label("abandoned-after-failure")
+                return len(reported), False, deep_mutation_failure, "abandoned", None
         else:
             expect("retry-converges", False,
                    f"{kind}: still failing after revealing {len(reported)} reported nodes")
